@@ -27,7 +27,7 @@ cd $X
 if ! CARGO_NET_OFFLINE=true cargo build --release --offline >build.log 2>&1; then echo "BUILD FAILED"; grep -E "^error" -A8 build.log | head -30; git -C $R checkout -- .; exit 2; fi
 for id in "$@"; do
   out=$(VERIF_DIR=$O ./target/release/sim check "$id" --tier quick 2>&1); rc=$?
-  case "$id" in C18|C19|C20)
+  case "$id" in C10|C18|C19|C20)
     # second engine (layers under real threads, Miri), on a private copy as well
     M=/tmp/eval-miri-$S; mkdir -p $M
     rm -rf $E/miri && git -C /verif archive HEAD miri | tar -x -C $E
